@@ -85,13 +85,13 @@ CLAIMED = {
         technique="machine-checked proof in Coq (induction over writer sessions and block arithmetic; codec round trips) + checked model-code correspondence on crash images",
     ),
     "C15": dict(
-        text="Coq theorems on the byte-exact log model with the real CRC32C: changing any single checksum-protected byte (the 4 checksum bytes or the payload of any fragment) of a log whose last block contains the change is detected: the reader returns the original records in order minus at most (exactly, for well-formed fragment sequences) one, invents and alters nothing and does not panic; crc32c itself is proved to detect every single-byte change; batch-level corollary through WAL recovery. Tied to the code by corrupting every offset of every persistent file (WAL, manifest, CURRENT, tables) of small real databases and judging the reopened database against the written history, also after a forced compaction; by comparing the extracted recovery function with DB::open on every single-byte corruption of CURRENT, manifests and logs; and by the table-file layout correspondence.",
+        text="Coq theorems on the byte-exact log model with the real CRC32C: changing any single checksum-protected byte (the 4 checksum bytes or the payload of any fragment) of a log whose last block contains the change is detected: the reader returns the original records in order minus at most (exactly, for well-formed fragment sequences) one, invents and alters nothing and does not panic; crc32c itself is proved to detect every single-byte change; batch-level corollary through WAL recovery; the type byte, which the checksum does not cover: changing it in any fragment but the last of a written log to any other valid type leaves a fragment the reader counts as dropped, and recovery rejects a manifest with dropped fragments (C15c_*, after the repair of defect D19). Tied to the code by corrupting every offset of every persistent file (WAL, manifest, CURRENT, tables) of small real databases and judging the reopened database against the written history, also after a forced compaction; by comparing the extracted recovery function with DB::open on every single-byte corruption of CURRENT, manifests and logs (plus every fragment's type byte set to every other valid type); and by the table-file layout correspondence.",
         note="Table files: every stored block (payload, compression type, checksum) reads back at its handle and any single changed byte of it is rejected with a checksum error; handle and footer round trips; a changed magic number is rejected (TableFile.v, tied by the tfile suite on files written by the real builder); the block contents above that layer (Snappy frames) stay opaque. The manifest and CURRENT are covered by the byte-exact recovery model compared with DB::open on every single-byte corruption (recoverc). Three recorded known findings (table-block-error-swallowed-by-iterators, log-length-beyond-eof, log-type-byte-not-checksummed) and the model witness for the mis-framing after a checksum failure in a non-final block (loses more than one record, still invents nothing).",
         design="6 / C15",
         technique="machine-checked proof in Coq (GF(2)-linearity of CRC32C, layout induction) + checked model-code correspondence on corrupted files",
     ),
     "C16": dict(
-        text="Coq theorems: for every history of sessions of the persistence-protocol model, each ending in a crash at any file operation with the last append torn at any byte (or cleanly) and the next one recovering from that image, the database opens and holds exactly the acknowledged batches, including those acknowledged after a recovery (C16_history_safe_from_empty, C16_writes_after_recovery_survive); a log cut at any byte (torn tail) followed by a NEW log file recovers exactly the batches whose records were complete in the first file followed by all batches of the second (wal_torn_then_new_log, with the cut characterised by record end offsets); appending to a log after a torn tail is refuted in the model (the appended record is lost), which is the repaired defect D2. Tied to the code by crash images with a torn last write (1 byte, half, all but one) of WAL and manifest appends, recovery, further writes and another reopen, with both log-reuse settings.",
+        text="Coq theorems: for every history of sessions of the persistence-protocol model, each ending in a crash at any file operation with the last append torn at any byte (or cleanly) and the next one recovering from that image, the database opens and holds exactly the acknowledged batches, including those acknowledged after a recovery (C16_history_safe_from_empty, C16_writes_after_recovery_survive); a log cut at any byte (torn tail) followed by a NEW log file recovers exactly the batches whose records were complete in the first file followed by all batches of the second (wal_torn_then_new_log, with the cut characterised by record end offsets); appending to a log after a torn tail is refuted in the model (the appended record is lost), which is the repaired defect D2. Tied to the code by crash images with a torn last write (1 byte, half, all but one, and exactly at a 32 KiB block boundary of the file when the write crosses one) of WAL and manifest appends, recovery, further writes and another reopen, with both log-reuse settings.",
         note="Database-level theorems on the protocol model: every byte prefix of a manifest or log reads back a prefix of its records with no record counted as corrupted and is reported intact only if it is a well-formed log (so it is reused only then); every crash image (any tear length) recovers; C16_writes_after_recovery_survive: writes acknowledged after recovering from a torn tail are present after the next crash or clean reopen, for either log-reuse setting. Tied to the code as described in the claim.",
         design="6 / C16",
         technique="machine-checked proof in Coq + checked model-code correspondence on torn crash images",
